@@ -13,7 +13,7 @@ import sys
 import time
 
 VERIF = os.path.abspath(os.path.join(os.path.dirname(__file__), '..', '..'))
-COQ = os.path.join(VERIF, 'coq')
+COQ = os.environ.get('VERIF_COQ') or os.path.join(VERIF, 'coq')
 REPO = os.environ.get('VERIF_REPO', '/repo')
 NPROC = int(os.environ.get('VERIF_JOBS', '16'))
 
@@ -314,3 +314,18 @@ def load_known():
 
 def known_for(prop):
     return [k for k in load_known().get('findings', []) if k['property'] == prop]
+
+
+def coq_str(s):
+    """Coq string literal (String scope) for an ASCII python string."""
+    if any(ord(ch) > 126 or ord(ch) < 32 for ch in s):
+        raise ValueError('non-printable/non-ASCII character in a Coq string literal')
+    return '"' + s.replace('"', '""') + '"%string'
+
+
+def coq_bool(b):
+    return 'true' if b else 'false'
+
+
+def coq_z(n):
+    return f"({int(n)})%Z"
